@@ -1,7 +1,10 @@
 package proxysim
 
 import (
+	"strings"
+
 	"fmt"
+	"github.com/ozontech/seq-db/logger"
 
 	"github.com/ozontech/seq-db/verifsim"
 )
@@ -65,4 +68,13 @@ func GenC09(seed uint64, thorough bool) *C09Case {
 		c.CtxMs = -1
 	}
 	return c
+}
+
+// logProbes records which warn/error messages of seq-db were logged during the run (reach statistics).
+func logProbes(res *RunResult) {
+	for k, v := range logger.SinkSnapshot() {
+		if !strings.HasPrefix(k, "info:") {
+			res.Probes["log:"+k] = v
+		}
+	}
 }
